@@ -808,6 +808,95 @@ def run_plincomb_case(c):
     return line, status, postl, problems
 
 
+# ---------------------------------------------------------------------------
+# malformed calls of LinearSpace.lincomb: rejected before anything is written
+
+def front_cases(ctx):
+    import odl
+    rng = ctx.rng
+    spaces = [('rn4', odl.rn(4), odl.rn(5)), ('cn3', odl.cn(3), odl.rn(3)),
+              ('discr', odl.uniform_discr(0, 1, 4), odl.uniform_discr(0, 2, 4)),
+              ('pspace', odl.ProductSpace(odl.rn(2), odl.rn(3)), odl.ProductSpace(odl.rn(2), 2)),
+              ('int5', odl.tensor_space(5, dtype='int64'), odl.rn(5))]
+    for sname, sp, other in spaces:
+        for bits in itertools.product([0, 1], repeat=8):
+            out_given, out_in, a_in, x1_in, b_given, x2_given, b_in, x2_in = bits
+            if not out_given and not out_in:
+                continue   # out_in is irrelevant without out: keep one representative
+            if not b_given and not b_in:
+                continue
+            if not x2_given and not x2_in:
+                continue
+            if rng.random() < (0.7 if ctx.quick else 0.0):
+                continue
+            yield dict(kind='front', space=sname, sp=sp, other=other, bits=bits)
+
+
+def run_front_case(c):
+    sp, other = c['sp'], c['other']
+    out_given, out_in, a_in, x1_in, b_given, x2_given, b_in, x2_in = c['bits']
+    has_field = sp.field is not None
+    good_scalar = 2
+    bad_scalar = 'not-a-number'   # in no field
+    x1 = (sp if x1_in else other).one()
+    x2 = (sp if x2_in else other).one() if x2_given else None
+    out = (sp if out_in else other).zero() if out_given else None
+    a = good_scalar if a_in else bad_scalar
+    b = (good_scalar if b_in else bad_scalar) if b_given else None
+    snap = [flat(e).copy() for e in (x1, x2, out) if e is not None]
+    try:
+        res = sp.lincomb(a, x1, b, x2, out=out)
+        status = 'call:one' if not b_given else 'call:two'
+        if res not in sp:
+            status = 'bad-result'
+    except Exception as e:  # noqa
+        status = 'err:' + type(e).__name__
+    after = [flat(e) for e in (x1, x2, out) if e is not None]
+    untouched = all(np.array_equal(p, q) for p, q in zip(snap, after))
+    # an omitted x2 (None) is not an element of the space
+    f = ''.join(str(int(v)) for v in (has_field, out_given, out_in, a_in, x1_in, b_given,
+                                     x2_given, b_in, x2_in and x2_given))
+    return 'front f=' + f, status, untouched
+
+
+FRONT_KIND = {'err:out': 'err:LinearSpaceTypeError', 'err:a': 'err:LinearSpaceTypeError',
+              'err:x1': 'err:LinearSpaceTypeError', 'err:b': 'err:LinearSpaceTypeError',
+              'err:x2': 'err:LinearSpaceTypeError', 'err:x2nob': 'err:ValueError',
+              'call:one': 'call:one', 'call:two': 'call:two'}
+
+
+def run_front(ctx):
+    batch, lines = [], []
+    for c in front_cases(ctx):
+        line, status, untouched = run_front_case(c)
+        batch.append((c, status, untouched))
+        lines.append(line)
+    outs = core.run_driver('C01', lines)
+    for (c, status, untouched), ans, line in zip(batch, outs, lines):
+        desc = {'kind': 'front', 'space': c['space'], 'bits': list(c['bits']), 'line': line}
+        ctx.case(('front', c['space'], line), sample=desc if len(ctx.samples) < 12 else None)
+        ctx.hit('front/' + ans)
+        well_formed = ans.startswith('call:')
+        # oracle (independent of the model): malformed -> a type/value error and nothing written
+        out_given, out_in, a_in, x1_in, b_given, x2_given, b_in, x2_in = c['bits']
+        has_field = c['sp'].field is not None
+        ok_args = (not out_given or out_in) and (not has_field or a_in) and x1_in and \
+            ((not b_given and not x2_given) or
+             (b_given and (not has_field or b_in) and x2_given and x2_in))
+        if ok_args and not status.startswith('call:'):
+            ctx.violation('front well-formed call rejected space={}'.format(c['space']),
+                          '{} -> {}'.format(line, status), desc)
+        if not ok_args:
+            if not status.startswith('err:'):
+                ctx.violation('front malformed call accepted space={}'.format(c['space']),
+                              '{} -> {}'.format(line, status), desc)
+            elif not untouched:
+                ctx.violation('front malformed call wrote to an argument space={}'.format(
+                    c['space']), '{} -> {}'.format(line, status), desc)
+        if FRONT_KIND.get(ans) != status:
+            ctx.disagree(desc, status, ans)
+
+
 def regenerate(ctx):
     changed = extract_lincomb.regenerate()
     return [('extract(_lincomb_impl -> Gen/LincombTree.lean)', True,
@@ -895,6 +984,8 @@ def run(ctx, deep=False):
         if parse_cl(f['res']) != R or parse_cl(f['x']) != XP or \
                 (c['y'] is not c['x'] and parse_cl(f['y']) != YP):
             ctx.disagree(desc, {'res': R[:6], 'x': XP[:6], 'y': YP[:6]}, ans[:300])
+    # --- malformed calls
+    run_front(ctx)
     # --- product-space lincomb, all alias patterns
     pbatch, plines = [], []
     for c in plincomb_cases(ctx):
